@@ -1,6 +1,7 @@
 pub mod codec;
 pub mod core;
 pub mod cutoff;
+pub mod delay;
 pub mod desync;
 pub mod drop;
 pub mod lifecycle_check;
@@ -23,6 +24,7 @@ pub fn judge_for(prop: &str) -> JudgeFn {
         "C08" => malformed::judge,
         "C09" => desync::judge,
         "C10" => cutoff::judge,
+        "C11" => delay::judge,
         "C12" => lifecycle_check::judge,
         _ => core::no_judge,
     }
